@@ -78,6 +78,20 @@ fn c05() -> &'static dyn Check {
     })
 }
 
+static C14L: proxysim::ProxyCheck = proxysim::ProxyCheck { prop: "C14" };
+static C14_COMPOSITE: std::sync::OnceLock<framework::CompositeCheck> = std::sync::OnceLock::new();
+
+fn c14() -> &'static dyn Check {
+    C14_COMPOSITE.get_or_init(|| framework::CompositeCheck {
+        prop: "C14",
+        engine: "E2 cluster-sim (routing: reachable broker states, live migrations) + E2 cluster-sim (hand-built layouts)",
+        parts: vec![(&C14, 1), (&C14L, 3)],
+        quick: (400, 60),
+        thorough: (24_000, 1500),
+        level: "exploration",
+    })
+}
+
 fn lookup(id: &str) -> Option<&'static dyn Check> {
     Some(match id {
         "C01" => &C01,
@@ -96,7 +110,7 @@ fn lookup(id: &str) -> Option<&'static dyn Check> {
         "C09" => &C09,
         "C20" => &C20,
         "C02" => &C02,
-        "C14" => &C14,
+        "C14" => c14(),
         "C07" => &C07,
         "C13L" => &C13L,
         "C03" => &C03,
